@@ -282,6 +282,7 @@ inductive Prog where
   | deco (c : Ctx) (body : Prog)         -- `@c def f(): body` ; `f()`   (ContextDecorator)
   | seq (a b : Prog)
   | catch (body : Prog)                  -- `try: body  except (ProbeError, AssertionError, IndexError): pass`
+  | quiet (body : Prog)                  -- run `body` where the harness cannot look: its observations are dropped
   deriving Repr, Inhabited
 
 inductive Obs where
@@ -364,6 +365,27 @@ def exec (env : Env) : Prog → St → Outcome × St
   | .catch body, st =>
       match exec env body st with
       | (_, st1) => (.normal, st1)
+  | .quiet body, st =>
+      match exec env body st with
+      | (o, st1) => (o, { st1 with log := st.log })
+
+/-- `funsor.optimizer.apply_optimizer(x)` for the lazy probe term `x = (k, tok)` (optimizer.py:162-167):
+
+        with unfold:
+            expr = interpreter.reinterpret(x)
+        with PrioritizedInterpretation(optimize_base, get_interpretation()):
+            return interpreter.reinterpret(expr)
+
+    The second context is exactly what `with optimize_base:` builds (`Interpretation.__enter__` layers a
+    partial interpretation over `get_interpretation()`): the optimizer's rules over the CALL-TIME stack.
+    (Probe kinds are restricted to those `unfold` leaves alone, so phase one returns `x` itself.) -/
+def applyOpt (k : K) (armed : Bool) (tok : Nat) : Prog :=
+  .seq (.withI (.named "unfold") (.quiet (.probe k false tok)))
+       (.withI (.named "optimize_base") (.probe k armed tok))
+
+/-- `funsor.adjoint.forward_backward(sum_op, prod_op, x)`: `with AdjointTape() as tape: forward =
+    stack_reinterpret(x)`; the backward pass works under `with reflect:` blocks of its own and is not observed. -/
+def forwardBackward (k : K) (tok : Nat) : Prog := .withI .tape (.probe k false tok)
 
 /-! ### canonical printing (shared format with fv/harness/c17.py) -/
 
